@@ -88,7 +88,7 @@ theorem C03G_frames_contract_pre {T : Type} (ops : SourceOps T) (s1 : Nat → Li
         gs.map C08Gen.frameOfGen = fs ∧
         gs.map (fun g => Gen.Verify.FrameHeader.block_size g.header) = blocks.map (fun b => (b.headD []).length) ∧
         (∀ g ∈ gs, g.precomputed_bitstream = none ∧ g.header.frame_number < 2 ^ 32 ∧ g.header.start_sample_number < 2 ^ 64 ∧
-          FrameFits g ∧ (C08Gen.frameOfGen g).count = some (Gen.Writer.Frame.count_bits g)) := by
+          FrameFits g ∧ (C08Gen.frameOfGen g).count = some (Gen.Writer.Frame.count_bits g) ∧ C08Gen.FrameOk g) := by
   induction hd with
   | nil src fbc =>
     intro st i log logf fs hi _ _ _ henc _ _ _ _
@@ -137,7 +137,7 @@ theorem C03G_frames_contract_pre {T : Type} (ops : SourceOps T) (s1 : Nat → Li
           | none => simp at hog
           | some g =>
             simp only [Option.map_some, Option.some.injEq] at hog
-            obtain ⟨hp, hfn, hss, hbsz, hfit, hcnt⟩ := C03G_encoder_frame_ok verifySamples (s1 fbc.2.frame_count)
+            obtain ⟨hp, hfn, hss, hbsz, hfit, hcnt, hfok⟩ := C03G_encoder_frame_ok verifySamples (s1 fbc.2.frame_count)
               (s2 fbc.2.frame_count) (s3 fbc.2.frame_count) c (fbToCoding fbc'.1) fbc.2.frame_count i log lg g (hst _)
               (hic ▸ hgood.ok) hgood.fill (hic ▸ hch) (hib ▸ hb) (by rw [hic, hib]; exact hgood.range) hmax hmo (hir ▸ hrate) hlog
               hlogok (by omega) (by rw [hic]; exact hgood.nch) (by rw [hib]; exact hgood.vs) hg
@@ -167,7 +167,7 @@ theorem C03G_frames_contract_pre {T : Type} (ops : SourceOps T) (s1 : Nat → Li
             · intro x hx
               simp only [List.mem_cons] at hx
               rcases hx with rfl | hx
-              · exact ⟨hp, hfn, hss, hfit, hcnt⟩
+              · exact ⟨hp, hfn, hss, hfit, hcnt, hfok⟩
               · exact hall x hx
 
 
